@@ -54,7 +54,7 @@ ALL_REPLIES = ("t4", "t4n", "p5", "p5n", "p5m", "p552", "e500", "e502", "okm", "
 ALL_EXTS = ("none", "utf8", "tls", "all", "rtls")
 ALL_OPTS = ("none", "utf8", "rtls", "all", "size")
 ALL_ADDRS = ("asc", "idn", "nl")
-ALL_DEVS = ("NoPoisonOnIOError", "LmtpHeloFallback", "CloseKeepsClient", "CloseAgainPanics")
+ALL_DEVS = ("NoPoisonOnIOError", "LmtpHeloFallback", "CloseKeepsClient", "CloseAgainPanics", "HelloNamePlain")
 KEEP = {"Cfg", "Call", "Srv", "Ret", "End"}
 
 
@@ -117,14 +117,90 @@ def nontrivial(x):
     return any(r != "ok" for s in x["steps"] for r in s["rs"]) or \
         any(s["a"]["dial"] == "fail" or s["a"]["body"] == "fail" for s in x["steps"])
 
+TCFG = """SPECIFICATION Spec
+CONSTANTS
+  Kinds = {"smtp", "lmtp", "remote"}
+  MaxRcpt = %(maxrcpt)d
+  RcptReplies = {"ok", "t4", "p5"}
+  DataReplies = {"ok", "t4", "p5"}
+  Devs = {%(devs)s}
+%(tail)s
+CHECK_DEADLOCK FALSE
+"""
+TARGET_DEVS = ("DataNoRcpt",)
 
-def run(ctx, replay):
-    thorough = ctx.tier == "thorough"
-    known = open_findings()
+
+def run_targets(ctx, binary, known, thorough, robj):
+    """Second slice: rows of SmtpClientTargets.tla on the real target.smtp / target.lmtp / target.remote."""
+    open_devs = sorted({d for f in known for d in devs_of(f) if d in TARGET_DEVS})
+    maxrcpt = 3 if thorough else 2
+    if robj:
+        rows = [robj["behaviour"]]
+        rows[0]["id"] = 1
+    else:
+        r = ctx.tlc("SmtpClientTargets", None, name="tg-rule", workers=1, timeout=900,
+                    cfg_text=TCFG % dict(maxrcpt=maxrcpt, devs="", tail="INVARIANT RuleOK"))
+        if not r["ok"]:
+            raise vlib.Infra("SmtpClientTargets: the documented call order violates RuleOK: %s %s" % (r["invariant"], r["error"]))
+        ctx.cov["states"] = ctx.cov.get("states", 0) + r["distinct"]
+        ctx.cov["transitions"] = ctx.cov.get("transitions", 0) + r["generated"]
+        ra = ctx.tlc("SmtpClientTargets", None, name="tg-asis", workers=1, timeout=900,
+                     cfg_text=TCFG % dict(maxrcpt=maxrcpt, devs=q(TARGET_DEVS), tail="INVARIANT RuleOK"))
+        if ra["invariant"] != "RuleOK":
+            raise vlib.Infra("SmtpClientTargets as-is (DataNoRcpt) no longer violates RuleOK (%s %s)" % (ra["invariant"], ra["error"]))
+        g = ctx.tlc("SmtpClientTargets", None, name="tg-rows", workers=1, timeout=900,
+                    cfg_text=TCFG % dict(maxrcpt=maxrcpt, devs=q(open_devs), tail=""))
+        if not g["ok"]:
+            raise vlib.Infra("SmtpClientTargets row generation failed: %s %s" % (g["invariant"], g["error"]))
+        rows = [{"row": v["row"], "data1": v["data1"], "data2": v["data2"]} for tag, v in g["printed"] if tag == "ROW"]
+        for i, x in enumerate(rows):
+            x["id"] = i + 1
+        if not rows:
+            raise vlib.Infra("TLC produced no target rows")
+    ctx.log("%d delivery-target rows to replay" % len(rows))
+    events = ctx.run_shards(binary, rows, test="TestReplayTargets", shards=min(vlib.NCPU, 4), name="replay-targets")
+    verdicts, by_t = ctx.validate("SmtpClientTargetsTrace", None, events, keep={"Cfg", "Srv", "End"}, name="SmtpClientTargetsTrace",
+                                  cfg_text="SPECIFICATION TSpec\nCHECK_DEADLOCK FALSE\nPOSTCONDITION Post\n", batch=3000)
+    by_id = {x["id"]: x for x in rows}
+    ok = drift = 0
+    seen = {}
+    preds = {}
+    for t, recs in sorted(verdicts.items()):
+        r0 = recs[0]
+        viol = set(r0["viol"])
+        row = by_id[t]["row"]
+        explained = set()
+        if viol and not r0["drift"]:
+            for f in known:
+                m = f.get("match", {})
+                if set(devs_of(f)) & set(open_devs) and m.get("kind") == row["kind"] and viol <= set(m.get("predicates", [])):
+                    hops = {rc["hop"] for rc in row["rcpts"]}
+                    starved = [h for h in hops if not any(rc["hop"] == h and rc["r"] == "ok" for rc in row["rcpts"])]
+                    if starved and row["commit"] and any(rc["r"] == "ok" for rc in row["rcpts"]):
+                        explained = viol
+                        seen[f["id"]] = f["what"]
+        rest = viol - explained
+        if rest:
+            for p in sorted(rest):
+                preds[p] = preds.get(p, 0) + 1
+            ctx.violation("delivery target %s violates %s on the wire" % (row["kind"], ",".join(sorted(rest))),
+                          {"property": PID, "behaviour": by_id[t], "trace": by_t[t], "violated": sorted(rest),
+                           "how": "bin/check X06 --replay <this file>"})
+        elif r0["drift"]:
+            drift += 1
+            print("DRIFT property=%s target-row=%d DATA reached another set of next hops than the call order predicts" % (PID, t))
+        else:
+            ok += 1
+    ctx.cov["target_rows"] = len(rows)
+    ctx.cov["target_rows_accepted"] = ok
+    if rows:
+        ctx.cov["samples"].append({"target_row": rows[len(rows) // 2], "trace": by_t.get(rows[len(rows) // 2]["id"], [])[:30]})
+    return ok, drift, seen, preds
+
+
+def run_client(ctx, binary, known, thorough, robj, skip_mc):
+    """First slice: the client object itself (SmtpClient.tla) on the real smtpconn.C in a synctest bubble."""
     open_devs = sorted({d for f in known for d in devs_of(f) if d in ALL_DEVS})
-    robj = json.load(open(replay)) if replay else None
-    skip_mc = bool(os.environ.get("VERIF_DEV_SKIP_MC"))
-    binary = ctx.build_harness("smtpconncheck")
 
     if not robj and not skip_mc:
         if thorough:
@@ -240,10 +316,20 @@ def run(ctx, replay):
             events = events + c1 + c2
             selftest = {900001: "corrupt-result", 900002: "drop-command"}
 
-    verdicts, by_t = ctx.validate("SmtpClientTrace", None, events, keep=KEEP, name="SmtpClientTrace",
-                                  cfg_text=cfg(spec="TSpec", exts=ALL_EXTS, replies=ALL_REPLIES, addrs=ALL_ADDRS, opts=ALL_OPTS,
-                                               certs=("valid", "bad"), maxrcpt=9, maxtxn=9, maxconn=9, maxfaults=99, maxagain=9,
-                                               devs=open_devs, tail=TRACE_TAIL), batch=1200)
+    tcfg = cfg(spec="TSpec", exts=ALL_EXTS, replies=ALL_REPLIES, addrs=ALL_ADDRS, opts=ALL_OPTS, certs=("valid", "bad"),
+               maxrcpt=9, maxtxn=9, maxconn=9, maxfaults=99, maxagain=9, devs=open_devs, tail=TRACE_TAIL)
+    # independent TLC runs over disjoint groups of traces, side by side
+    ngroups = 6 if len(behs) > 4000 else 2
+    groups = [[e for e in events if e["t"] % ngroups == g] for g in range(ngroups)]
+    groups = [g for g in groups if g]
+    verdicts, by_t = {}, {}
+    with concurrent.futures.ThreadPoolExecutor(max_workers=len(groups)) as ex:
+        futs = [ex.submit(ctx.validate, "SmtpClientTrace", None, g, keep=KEEP, name="SmtpClientTrace-g%d" % i, cfg_text=tcfg,
+                          batch=1200) for i, g in enumerate(groups)]
+        for f in futs:
+            v, bt = f.result()
+            verdicts.update(v)
+            by_t.update(bt)
     ok = drift = 0
     preds = {}
     seen_findings = {}
@@ -279,20 +365,42 @@ def run(ctx, replay):
         else:
             drift += 1
             print("DRIFT property=%s trace=%d first-unexplained-seq=%s" % (PID, t, r0["driftAt"]))
-    for fid, what in sorted(seen_findings.items()):
-        print("EXT-FINDING: ext=%s %s %s" % (PID, fid, what))
     if selftest:
         ctx.cov["binding_selftest"] = "corrupted-result and dropped-command traces rejected"
-    ctx.cov["ext_findings_seen"] = sorted(seen_findings)
-    ctx.cov["traces_validated_against_impl"] = ok
-    ctx.cov["drift_traces"] = drift
     ctx.cov["evaluations"] = len(behs)
     ctx.cov["distinct_nontrivial"] = sum(1 for x in behs if nontrivial(x))
-    ctx.cov["violated_predicates"] = preds
     ctx.cov["calls_replayed"] = sum(1 for e in events if e["e"] == "Call" and e["t"] < 900000)
     ctx.cov["wire_events"] = sum(1 for e in events if e["e"] == "Srv" and e["t"] < 900000)
     for x in behs[:2]:
         ctx.cov["samples"].append({"behaviour": x, "trace": [e for e in by_t.get(x["id"], [])][:40]})
+    return ok, drift, seen_findings, preds
+
+
+def run(ctx, replay):
+    thorough = ctx.tier == "thorough"
+    known = open_findings()
+    robj = json.load(open(replay)) if replay else None
+    skip_mc = bool(os.environ.get("VERIF_DEV_SKIP_MC"))   # development aid only (mutation drills)
+    if skip_mc:
+        ctx.notes.append("VERIF_DEV_SKIP_MC set: exhaustive model checking skipped in this run")
+    binary = ctx.build_harness("smtpconncheck")
+    ok = drift = 0
+    seen_findings, preds = {}, {}
+    if not robj or "steps" in robj.get("behaviour", {}):
+        ok, drift, seen_findings, preds = run_client(ctx, binary, known, thorough, robj, skip_mc)
+    if not robj or "row" in robj.get("behaviour", {}):
+        ok2, drift2, seen2, preds2 = run_targets(ctx, binary, known, thorough, robj)
+        ok += ok2
+        drift += drift2
+        seen_findings.update(seen2)
+        for k2, v2 in preds2.items():
+            preds[k2] = preds.get(k2, 0) + v2
+    for fid, what in sorted(seen_findings.items()):
+        print("EXT-FINDING: ext=%s %s %s" % (PID, fid, what))
+    ctx.cov["ext_findings_seen"] = sorted(seen_findings)
+    ctx.cov["traces_validated_against_impl"] = ok
+    ctx.cov["drift_traces"] = drift
+    ctx.cov["violated_predicates"] = preds
     ctx.cov["rule"] = ("behaviours = (next hop: SMTP/LMTP, extension set, certificate; call sequence of the targets' call "
                        "language; reply kind of every reply slot) of SmtpClient.tla printed by TLC: exhaustive over focused "
                        "sub-spaces (one per shape in quick, all in thorough) plus -simulate over the full space, "
@@ -305,6 +413,8 @@ def run(ctx, replay):
         "the next hop sends exactly one reply per command (per accepted recipient after the final dot for LMTP, optionally "
         "one more), possibly after the client's time-out; at most one late reply per connection",
         "addresses are fixed strings per kind (ASCII, U-label domain, non-ASCII local part)",
+        "target slice: real target.smtp / target.lmtp / target.remote against scripted.SMTPServer on loopback TCP; a harness-side "
+        "time-out there is exit 2, never a violation",
         "TLC 1.8.0, CommunityModules Json reader",
     ]
 
